@@ -119,7 +119,7 @@ def bounds(tier):
 
 
 def shards(tier):
-    return [("first", i, j) for i in range(len(CAT)) for j in range(len(CAT))] + [("short", 0), ("wide", 0)] + [("two_docs", k) for k in range(32)]
+    return [("first", i, j) for i in range(len(CAT)) for j in range(len(CAT))] + [("short", 0), ("wide", 0), ("keys_changed", 0)] + [("two_docs", k) for k in range(32)]
 
 
 def strip1(v):
@@ -260,15 +260,17 @@ def check_two_docs(acc, stripe=None):
                 continue
             ta = "\n".join(CAT[i][-1] for i in a)
             tb = "\n".join(CAT[i][-1] for i in b)
-            for with_replace in (False, True, "first entry and first string removed through equal twins"):
-                if with_replace not in (False, True) and len(b) > 1:
+            for with_replace in (False, True, "first entry and first string removed through equal twins", "second part added through an iterable that reads the views"):
+                if with_replace == "first entry and first string removed through equal twins" and len(b) > 1:
                     continue  # (twins: second documents of one block)
                 case = {"two_docs": [list(a), list(b)], "rolled_back_replace": with_replace}
                 acc.trace(3)
                 acc.case(nontrivial_key=("two", a, b, with_replace))
                 try:
                     lib = bibtexparser.parse_string(ta, parse_stack=[])
-                    if with_replace and with_replace is not True:
+                    if with_replace == "second part added through an iterable that reads the views":
+                        pass
+                    elif with_replace and with_replace is not True:
                         # the caller names the blocks to remove by equal objects (the same text parsed again)
                         twin = bibtexparser.parse_string(ta, parse_stack=[])
                         for held, named in ((lib.entries[:1], twin.entries[:1]), ([x for x in lib.blocks if type(x) is String][:1], [x for x in twin.blocks if type(x) is String][:1])):
@@ -290,8 +292,20 @@ def check_two_docs(acc, stripe=None):
                                 pass
                     # (every view is read before the second part arrives: views are functions of the blocks held NOW)
                     _ = (lib.entries, lib.strings, lib.preambles, lib.comments, lib.failed_blocks, lib.entries_dict, lib.strings_dict)
-                    lib = bibtexparser.parse_string(tb, parse_stack=[], library=lib)
-                    if with_replace not in (False, True):
+                    if with_replace == "second part added through an iterable that reads the views":
+                        # the second part's own blocks (its duplicates unwrapped again), handed to add() one by one by a
+                        # generator that looks at the library's views in between: what parsing both parts in one go gives
+                        part = [x.ignore_error_block if isinstance(x, DuplicateBlockKeyBlock) else x for x in bibtexparser.parse_string(tb, parse_stack=[]).blocks]
+
+                        def lazily(L=lib):
+                            for x in part:
+                                _ = (L.failed_blocks, L.entries, L.comments, L.preambles, L.strings)
+                                yield x
+
+                        lib.add(lazily())
+                    else:
+                        lib = bibtexparser.parse_string(tb, parse_stack=[], library=lib)
+                    if with_replace not in (False, True, "second part added through an iterable that reads the views"):
                         # what is held now: A without the two removed blocks (their former duplicates stay flagged), then B
                         # - judged view against blocks below, and: a key no entry holds any more is free for B's first holder
                         one = None
@@ -325,7 +339,54 @@ def check_two_docs(acc, stripe=None):
                     )
 
 
+class LowerKeys(BlockMiddleware):
+    """A user block middleware that lower-cases citation keys and string names (in place or on copies): keys that differed
+    only in letter case now collide - in the library the pass returns, the first is live and the later ones are flagged."""
+
+    def transform_entry(self, entry, library):
+        entry.key = entry.key.lower()
+        return entry
+
+    def transform_string(self, string, library):
+        string.key = string.key.lower()
+        return string
+
+
+def check_keys_changed(acc):
+    from bibtexparser.library import Library
+
+    docs = [ids for n in (1, 2, 3) for ids in itertools.product(range(len(CAT)), repeat=n) if n < 3 or ids[0] in (0, 26, 27) or ids[1] in (26, 27)]
+    pos = lambda L, o: next((n for n, y in enumerate(L.blocks) if y is o), -1)
+    sig = lambda L: [(type(x).__name__, getattr(x, "key", None), x.raw) + ((pos(L, x.previous_block),) if isinstance(x, DuplicateBlockKeyBlock) else ()) for x in L.blocks] + [sorted(L.entries_dict), sorted(L.strings_dict)]
+    for ids in docs:
+        if any(CAT[x][0] == "comment" and CAT[y][0] == "comment" for x, y in zip(ids, ids[1:])):
+            continue
+        text = "\n".join(CAT[i][-1] for i in ids)
+        for inplace in (True, False):
+            case = {"keys_changed_by_a_user_middleware": list(ids), "inplace": inplace}
+            acc.trace(2)
+            acc.case(nontrivial_key=("keys-changed", ids, inplace))
+            acc.count("keys_changed_documents")
+            try:
+                got = bibtexparser.parse_string(text, parse_stack=[LowerKeys(allow_inplace_modification=inplace)])
+                # what a block pass is: every block's result, in order, in a new library
+                src = bibtexparser.parse_string(text, parse_stack=[])
+                m = LowerKeys(allow_inplace_modification=True)
+                exp = Library([m.transform_block(b, src) for b in src.blocks])
+            except Exception as e:
+                acc.exception(e, case, "parse_string with a key-changing middleware")
+                continue
+            acc.step(("keys-changed", ids), inplace, tuple(type(x).__name__ for x in got.blocks))
+            # (a copying pass copies an already flagged duplicate together with its own copy of the first block: which object
+            # that wrapper points to is C07's subject; here: kinds, keys, raw texts, the live keys)
+            strip = (lambda s_: [t[:3] if isinstance(t, tuple) else t for t in s_]) if not inplace else (lambda s_: s_)
+            if strip(sig(got)) != strip(sig(exp)):
+                acc.violation({"oracle": "duplicates_flagged_after_a_pass_that_changed_keys", "inplace": inplace}, {"case": case, "text": text, "observed": sig(got), "expected": sig(exp)}, size=len(ids))
+
+
 def run_shard(shard, tier, acc):
+    if shard[0] == "keys_changed":
+        return check_keys_changed(acc)
     if shard[0] == "two_docs":
         return check_two_docs(acc, shard[1])
     if shard[0] == "wide":
@@ -348,6 +409,8 @@ def run_shard(shard, tier, acc):
 def replay(case, acc):
     if "two_docs" in case:
         return check_two_docs(acc)
+    if "keys_changed_by_a_user_middleware" in case:
+        return check_keys_changed(acc)
     if "wide" in case:
         return check_wide(acc, "quick" if case["wide"] <= 258 else "thorough")
     check_doc(tuple(case["ids"]), case["sep"], acc, case)
